@@ -11,8 +11,8 @@ pub fn check(tier: Tier) -> Check {
     let mut parts = vec![];
     for k in 0..=tier.pick(1, 2) {
         let d = match (tier, k) {
-            (Tier::Quick, 0) => 5,
-            (Tier::Quick, _) => 4,
+            (Tier::Quick, 0) => 6,
+            (Tier::Quick, _) => 5,
             (Tier::Thorough, 0) => 8,
             (Tier::Thorough, 1) => 7,
             (Tier::Thorough, _) => 6,
@@ -20,9 +20,9 @@ pub fn check(tier: Tier) -> Check {
         parts.push(Part::new("C07/dispatch", json!({"depth": d}), k, tier.pick(40, 500)));
     }
     parts.push(Part::new("C07/fields", json!({}), 0, tier.pick(20, 60)));
-    parts.push(Part::new("C07/dispatch", json!({"depth": tier.pick(4, 6), "flavour": 1}), 0, tier.pick(30, 400)));
+    parts.push(Part::new("C07/dispatch", json!({"depth": tier.pick(5, 6), "flavour": 1}), 0, tier.pick(30, 400)));
     // four established subscriptions: stream drops / lag in every order, messages to every one
-    parts.push(Part::new("C07/many", json!({"subs": 4, "depth": tier.pick(4, 6)}), tier.pick(0, 1), tier.pick(30, 400)));
+    parts.push(Part::new("C07/many", json!({"subs": 4, "depth": tier.pick(5, 6)}), tier.pick(0, 1), tier.pick(30, 400)));
     Check {
         also_rel: false,
         property: "C07",
